@@ -1,14 +1,14 @@
 (* M8a: request routing of afkak/client.py KafkaClient (C07).  Definitions only.
-     _send_broker_aware_request 1231-1362, _get_leader_for_partition 989-1008,
-     _get_coordinator_for_group 1010-1020, _send_request_to_coordinator 1364-1394,
-     _send_broker_unaware_request 1100-1155, _send_bootstrap_request 1167-1229,
-     load_metadata_for_topics 468-527, load_coordinator_for_group 586-650, _normalize_hosts 1397-1445.
+     _send_broker_aware_request 1240-1371, _get_leader_for_partition 996-1015,
+     _get_coordinator_for_group 1017-1029, _send_request_to_coordinator 1373-1403,
+     _send_broker_unaware_request 1109-1164, _send_bootstrap_request 1176-1238,
+     load_metadata_for_topics 468-527, load_coordinator_for_group 586-650, _normalize_hosts 1406-1454.
 
    The environment is a SCRIPT: for every broker-agnostic request the order random.shuffle produced (read
    back from the implementation) and the outcome of each successive try; for every per-broker request
    whether the broker answered (with which decoded responses) or the request failed.  "For all schedules
    and fault sequences" is "for all scripts".  The order in which brokers answer is not part of the script:
-   the code waits on a DeferredList (1335) whose result is in request order whatever the answer order; the
+   the code waits on a DeferredList (1344) whose result is in request order whatever the answer order; the
    driver varies the answer order to validate exactly that.
 
    Outside this model: two client operations overlapping in time (each operation here runs to completion,
@@ -20,7 +20,7 @@ From AV Require Import Base.Util Model.ClientMeta.
 Record payload := { p_topic : Z; p_part : Z; p_tag : Z }.
 Definition p_key (p : payload) : tpk := (p_topic p, p_part p).
 
-(* ---- grouping: client.py:1273, 1296 ------------------------------------------------------------ *)
+(* ---- grouping: client.py:1282, 1305 ------------------------------------------------------------ *)
 (* payloads_by_broker = collections.defaultdict(list); payloads_by_broker[leader.node_id].append(payload) *)
 Fixpoint dappend (n : Z) (p : payload) (d : list (Z * list payload)) : list (Z * list payload) :=
   match d with
@@ -30,7 +30,7 @@ Fixpoint dappend (n : Z) (p : payload) (d : list (Z * list payload)) : list (Z *
 Definition group_by_node (resolved : list (payload * Z)) : list (Z * list payload) :=
   fold_left (fun d pn => dappend (snd pn) (fst pn) d) resolved [].
 
-(* ---- collecting the per-broker results: client.py:1335-1348 ------------------------------------- *)
+(* ---- collecting the per-broker results: client.py:1344-1357 ------------------------------------- *)
 Inductive outcome := OFail | OOk (rs : list resp).
 
 Fixpoint collect (expect : bool) (reqs : list (list payload)) (outs : list outcome)
@@ -38,20 +38,20 @@ Fixpoint collect (expect : bool) (reqs : list (list payload)) (outs : list outco
   match reqs, outs with
   | ps :: reqs', o :: outs' =>
       match o with
-      | OFail => collect expect reqs' outs' acc (failed ++ ps)                              (* 1338-1343 *)
+      | OFail => collect expect reqs' outs' acc (failed ++ ps)                              (* 1347-1352 *)
       | OOk rs =>
           if expect
-          then collect expect reqs' outs' (fold_left (fun a r => dset tp_eqb (r_key r) r a) rs acc) failed  (* 1347-1348 *)
-          else collect expect reqs' outs' acc failed                                        (* 1344-1345 *)
+          then collect expect reqs' outs' (fold_left (fun a r => dset tp_eqb (r_key r) r a) rs acc) failed  (* 1356-1357 *)
+          else collect expect reqs' outs' acc failed                                        (* 1353-1354 *)
       end
   | _, _ => (acc, failed)
   end.
 
-(* 1357: [acc[k] for k in original_keys if k in acc] *)
+(* 1366: [acc[k] for k in original_keys if k in acc] *)
 Definition reorder (keys : list tpk) (acc : list (tpk * resp)) : list resp :=
   flat_map (fun k => match dget tp_eqb k acc with Some r => [r] | None => [] end) keys.
 
-(* ---- broker-agnostic requests: client.py:1100-1229 ---------------------------------------------- *)
+(* ---- broker-agnostic requests: client.py:1109-1238 ---------------------------------------------- *)
 Inductive kout := KFail | KResp | KClose.
   (* a try on a known broker: the request failed with a KafkaError (silent broker: time-out) /
      the broker answered / close() was called meanwhile *)
@@ -65,7 +65,7 @@ Definition ulog := list (target * tout).
 
 Record uscript := { u_shuf : list Z; u_kouts : list kout; u_bshuf : list addr; u_bouts : list bout }.
 
-(* 1134: node_ids.sort(reverse=True, key=connected) - stable, connected (True) first *)
+(* 1143: node_ids.sort(reverse=True, key=connected) - stable, connected (True) first *)
 Fixpoint cinsert (key : Z -> bool) (x : Z) (l : list Z) : list Z :=
   match l with
   | [] => [x]
@@ -89,23 +89,23 @@ Section PermB.
     end.
 End PermB.
 
-(* 1136-1150 *)
+(* 1145-1159 *)
 Fixpoint known_loop (st : state) (order : list Z) (outs : list kout) (log : ulog)
   : state * ulog * option ures :=
   match order with
   | [] => (st, log, None)
   | n :: rest =>
-      if s_closed st then (st, log, Some UClientError)            (* 1137 -> 905-906, outside the try *)
+      if s_closed st then (st, log, Some UClientError)            (* 1146 -> 912-913, outside the try *)
       else match outs with
            | [] => (st, log, Some UScript)
            | o :: outs' =>
-               match request_on st n with                         (* 1137, 1140 *)
+               match request_on st n with                         (* 1146, 1149 *)
                | None => (st, log, Some UKeyError)
                | Some (st1, a) =>
                    let log' := log ++ [(TKnown n a, OK_ o)] in
                    match o with
-                   | KResp => (st1, log', Some UOk)                              (* 1141-1142 *)
-                   | KFail => known_loop st1 rest outs' log'                     (* 1143-1150 *)
+                   | KResp => (st1, log', Some UOk)                              (* 1150-1151 *)
+                   | KFail => known_loop st1 rest outs' log'                     (* 1152-1159 *)
                    | KClose => known_loop (close_early st1) rest outs' log'
                        (* close(): the pending request fails with ClientError, a KafkaError: caught; the cache is
                           reset only after the operation has run to its end (ClientMeta.close_finish) *)
@@ -114,20 +114,20 @@ Fixpoint known_loop (st : state) (order : list Z) (outs : list kout) (log : ulog
            end
   end.
 
-(* 1196-1229 *)
+(* 1205-1238 *)
 Fixpoint boot_loop (st : state) (hosts : list addr) (outs : list bout) (log : ulog)
   : state * ulog * ures :=
   match hosts with
-  | [] => (st, log, if s_closed st then UCancelled else UUnavailable)   (* 1227-1229 *)
+  | [] => (st, log, if s_closed st then UCancelled else UUnavailable)   (* 1236-1238 *)
   | h :: rest =>
-      if s_closed st then (st, log, UCancelled)                         (* 1199-1201 *)
+      if s_closed st then (st, log, UCancelled)                         (* 1208-1210 *)
       else match outs with
            | [] => (st, log, UScript)
            | o :: outs' =>
                let log' := log ++ [(TBoot h, OB_ o)] in
                match o with
-               | BResp => (st, log', UOk)                                (* 1222-1223 *)
-               | BConnFail | BReqFail => boot_loop st rest outs' log'    (* 1205-1207, 1213-1221 *)
+               | BResp => (st, log', UOk)                                (* 1231-1232 *)
+               | BConnFail | BReqFail => boot_loop st rest outs' log'    (* 1214-1216, 1222-1230 *)
                | BCloseConn | BCloseReq => boot_loop (close_early st) rest outs' log'
                    (* close() cancels the Deferred registered by _cancel_on_close: except Exception *)
                end
@@ -136,14 +136,14 @@ Fixpoint boot_loop (st : state) (hosts : list addr) (outs : list bout) (log : ul
 
 Definition fallback_order (st : state) (shuf : list Z) : list Z := csort (connected st) shuf.
 
-(* 1100-1155 *)
+(* 1109-1164 *)
 Definition unaware (st : state) (u : uscript) : state * ulog * ures :=
-  if s_closed st then (st, [], UClientError)                                        (* 1120-1121 *)
-  else if negb (perm_b Z.eqb (u_shuf u) (map fst (s_brokers st))) then (st, [], UScript)   (* 1123-1125 *)
+  if s_closed st then (st, [], UClientError)                                        (* 1129-1130 *)
+  else if negb (perm_b Z.eqb (u_shuf u) (map fst (s_brokers st))) then (st, [], UScript)   (* 1132-1134 *)
   else match known_loop st (fallback_order st (u_shuf u)) (u_kouts u) [] with
        | (st1, log, Some r) => (st1, log, r)
-       | (st1, log, None) =>                                                         (* 1155 *)
-           if negb (perm_b addr_eqb (u_bshuf u) (s_boot st1)) then (st1, log, UScript)    (* 1196-1197 *)
+       | (st1, log, None) =>                                                         (* 1164 *)
+           if negb (perm_b addr_eqb (u_bshuf u) (s_boot st1)) then (st1, log, UScript)    (* 1205-1206 *)
            else boot_loop st1 (u_bshuf u) (u_bouts u) log
        end.
 
@@ -171,18 +171,18 @@ Definition load_coordinator (st : state) (g : Z) (u : uscript) (c : Z * bmeta) :
   | (st1, log, _) => (reset_group st1 g, log, false)                         (* 625-635 *)
   end.
 
-(* ---- resolution: client.py:1283-1297 ------------------------------------------------------------ *)
+(* ---- resolution: client.py:1292-1306 ------------------------------------------------------------ *)
 Inductive load := LoadMeta (u : uscript) (r : rawresp) | LoadCoord (u : uscript) (c : Z * bmeta).
 
 Inductive ekind :=
-| EValue                    (* 1268-1269 empty payload list *)
-| ELeaderUnavailable        (* 1287-1290 *)
-| EPartitionUnavailable     (* 1005-1006 *)
-| ECoordinatorNotAvailable  (* 1293-1294, 633, 1375-1376 *)
+| EValue                    (* 1277-1278 empty payload list *)
+| ELeaderUnavailable        (* 1296-1299 *)
+| EPartitionUnavailable     (* 1012-1013 *)
+| ECoordinatorNotAvailable  (* 1302-1303, 633, 1384-1385 *)
 | EKafkaUnavailable         (* 520: the metadata load failed *)
-| EClientError              (* 905-906 *)
+| EClientError              (* 912-913 *)
 | EKeyErrorMerge            (* 568 escaping through load_metadata_for_topics *)
-| EKeyErrorBroker           (* 908: unreachable from well-formed states, see Proofs *)
+| EKeyErrorBroker           (* 915: unreachable from well-formed states, see Proofs *)
 | ETimedOut                 (* _send_request_to_coordinator: the request failed *)
 | EScript.
 
@@ -200,14 +200,14 @@ Definition lres_code (r : lres) : Z :=
 (* one resolved payload, with the cache as it was when the leader / coordinator was read *)
 Record rstep := { rs_payload : payload; rs_node : Z; rs_state : state }.
 
-(* 989-1008 + 1286-1290 *)
+(* 996-1015 + 1295-1299 *)
 Definition resolve_leader (st : state) (p : payload) (loads : list load)
   : state * list load * list loadev * (Z + ekind) :=
   let k := p_key p in
   let '(st1, loads1, evs, err) :=
     match leader_of st k with
     | Some (Some _) => (st, loads, [], None)
-    | _ =>                                                                     (* 1002-1003 *)
+    | _ =>                                                                     (* 1009-1010 *)
         match loads with
         | LoadMeta u r :: loads' =>
             let '(st', log, gone, res) := load_metadata st false u r in
@@ -225,18 +225,18 @@ Definition resolve_leader (st : state) (p : payload) (loads : list load)
   | Some e => (st1, loads1, evs, inr e)
   | None =>
       match leader_of st1 k with
-      | None => (st1, loads1, evs, inr EPartitionUnavailable)                  (* 1005-1006 *)
-      | Some None => (st1, loads1, evs, inr ELeaderUnavailable)                (* 1287-1290 *)
-      | Some (Some bm) => (st1, loads1, evs, inl (fst bm))                     (* 1296 leader.node_id *)
+      | None => (st1, loads1, evs, inr EPartitionUnavailable)                  (* 1012-1013 *)
+      | Some None => (st1, loads1, evs, inr ELeaderUnavailable)                (* 1296-1299 *)
+      | Some (Some bm) => (st1, loads1, evs, inl (fst bm))                     (* 1305 leader.node_id *)
       end
   end.
 
-(* 1010-1020 + 1292-1294 *)
+(* 1017-1029 + 1301-1303 *)
 Definition resolve_coord (st : state) (g : Z) (loads : list load)
   : state * list load * list loadev * (Z + ekind) :=
   match dget Z.eqb g (s_g2c st) with
   | Some bm => (st, loads, [], inl (fst bm))
-  | None =>                                                                    (* 1017-1018 *)
+  | None =>                                                                    (* 1026-1027 *)
       match loads with
       | LoadCoord u c :: loads' =>
           let '(st1, log, ok) := load_coordinator st g u c in
@@ -244,7 +244,7 @@ Definition resolve_coord (st : state) (g : Z) (loads : list load)
           if ok then
             match dget Z.eqb g (s_g2c st1) with
             | Some bm => (st1, loads', [ev], inl (fst bm))
-            | None => (st1, loads', [ev], inr ECoordinatorNotAvailable)        (* 1293-1294 *)
+            | None => (st1, loads', [ev], inr ECoordinatorNotAvailable)        (* 1302-1303 *)
             end
           else (st1, loads', [ev], inr ECoordinatorNotAvailable)               (* 633 *)
       | _ => (st, loads, [], inr EScript)
@@ -270,7 +270,7 @@ Fixpoint resolve_loop (st : state) (group : option Z) (ps : list payload) (loads
       end
   end.
 
-(* ---- the per-broker requests: client.py:1320-1332 ----------------------------------------------- *)
+(* ---- the per-broker requests: client.py:1329-1341 ----------------------------------------------- *)
 Record reqev := { rq_node : Z; rq_addr : addr; rq_payloads : list payload }.
 Inductive rout := RFail | ROk (rs : list resp).
 Definition to_outcome (o : rout) : outcome := match o with ROk rs => OOk rs | _ => OFail end.
@@ -280,11 +280,11 @@ Fixpoint send_requests (st : state) (groups : list (Z * list payload)) (outs : l
   match groups with
   | [] => (st, sent, None)
   | (n, ps) :: rest =>
-      if s_closed st then (st, sent, Some EClientError)                        (* 1321 -> 905-906 *)
+      if s_closed st then (st, sent, Some EClientError)                        (* 1330 -> 912-913 *)
       else match outs with
            | [] => (st, sent, Some EScript)
            | o :: outs' =>
-               match request_on st n with                                      (* 1321, 1330 *)
+               match request_on st n with                                      (* 1330, 1339 *)
                | None => (st, sent, Some EKeyErrorBroker)
                | Some (st1, a) =>
                    send_requests st1 rest outs' (sent ++ [{| rq_node := n; rq_addr := a; rq_payloads := ps |}])
@@ -302,11 +302,11 @@ Record aresult := { a_state : state; a_loads : list loadev; a_resolved : list rs
 
 Definition resolved_pairs (rs : list rstep) : list (payload * Z) := map (fun r => (rs_payload r, rs_node r)) rs.
 
-(* 1231-1362.  [expect] = decode_fn is not None *)
+(* 1240-1371.  [expect] = decode_fn is not None *)
 Definition aware (st : state) (group : option Z) (expect : bool) (ps : list payload)
            (loads : list load) (outs : list rout) : aresult :=
   match ps with
-  | [] => {| a_state := st; a_loads := []; a_resolved := []; a_reqs := []; a_res := SErr EValue |}  (* 1268-1269 *)
+  | [] => {| a_state := st; a_loads := []; a_resolved := []; a_reqs := []; a_res := SErr EValue |}  (* 1277-1278 *)
   | _ =>
       match resolve_loop st group ps loads [] [] with
       | (st1, evs, inr e) =>
@@ -318,18 +318,18 @@ Definition aware (st : state) (group : option Z) (expect : bool) (ps : list payl
               {| a_state := st2; a_loads := evs; a_resolved := resolved; a_reqs := sent; a_res := SErr e |}
           | (st2, sent, None) =>
               let '(acc, failed) := collect expect (map snd groups) (map to_outcome outs) [] [] in
-              let responses := reorder (map p_key ps) acc in                    (* 1297, 1357 *)
+              let responses := reorder (map p_key ps) acc in                    (* 1306, 1366 *)
               match failed with
               | [] => {| a_state := st2; a_loads := evs; a_resolved := resolved; a_reqs := sent;
-                         a_res := SOk responses |}                              (* 1362 *)
+                         a_res := SOk responses |}                              (* 1371 *)
               | _ => {| a_state := reset_all st2; a_loads := evs; a_resolved := resolved; a_reqs := sent;
-                        a_res := SFailed responses failed |}                    (* 1358-1360 *)
+                        a_res := SFailed responses failed |}                    (* 1367-1369 *)
               end
           end
       end
   end.
 
-(* ---- the public send_*_request methods: aware + _handle_responses (client.py:652-808) ------------ *)
+(* ---- the public send_*_request methods: aware + _handle_responses (client.py:652-809) ------------ *)
 Inductive pres :=
 | POk (rs : list resp)
 | PRaise (errno : Z)
@@ -356,7 +356,7 @@ Definition send_direct (st : state) (group : option Z) (expect : bool) (ps : lis
   let r := aware st group expect ps loads outs in
   (r, a_state r, match a_res r with SOk rs => POk rs | SFailed rs f => PFailed rs f | SErr e => PErr e end).
 
-(* ---- _send_request_to_coordinator: client.py:1364-1394 ------------------------------------------ *)
+(* ---- _send_request_to_coordinator: client.py:1373-1403 ------------------------------------------ *)
 Definition send_coord (st : state) (g : Z) (p : payload) (loads : list load) (o : rout)
   : aresult * state * pres :=
   match resolve_coord st g loads with
@@ -364,7 +364,7 @@ Definition send_coord (st : state) (g : Z) (p : payload) (loads : list load) (o 
       ({| a_state := st1; a_loads := evs; a_resolved := []; a_reqs := []; a_res := SErr e |}, st1, PErr e)
   | (st1, _, evs, inl n) =>
       let resolved := [{| rs_payload := p; rs_node := n; rs_state := st1 |}] in
-      if s_closed st1 then                                                     (* 1377 -> 905-906 *)
+      if s_closed st1 then                                                     (* 1386 -> 912-913 *)
         ({| a_state := st1; a_loads := evs; a_resolved := resolved; a_reqs := []; a_res := SErr EClientError |},
          st1, PErr EClientError)
       else
@@ -374,7 +374,7 @@ Definition send_coord (st : state) (g : Z) (p : payload) (loads : list load) (o 
         | Some (st2, a) =>
             let sent := [{| rq_node := n; rq_addr := a; rq_payloads := [p] |}] in
             match o with
-            | ROk (r :: _) =>                                                   (* 1391-1394 *)
+            | ROk (r :: _) =>                                                   (* 1400-1403 *)
                 let ar := {| a_state := st2; a_loads := evs; a_resolved := resolved; a_reqs := sent;
                              a_res := SOk [r] |} in
                 match handle_responses st2 (Some g) true [r] [] with
@@ -385,14 +385,14 @@ Definition send_coord (st : state) (g : Z) (p : payload) (loads : list load) (o 
             | ROk [] => ({| a_state := st2; a_loads := evs; a_resolved := resolved; a_reqs := sent;
                             a_res := SErr EScript |}, st2, PErr EScript)
             | _ => ({| a_state := st2; a_loads := evs; a_resolved := resolved; a_reqs := sent;
-                       a_res := SErr ETimedOut |}, st2, PErr ETimedOut)        (* 1387: the failure propagates *)
+                       a_res := SErr ETimedOut |}, st2, PErr ETimedOut)        (* 1396: the failure propagates *)
             end
         end
   end.
 
-(* ---- _normalize_hosts: client.py:1397-1445 ------------------------------------------------------ *)
-(* An item is a string "host" / "host:port" (after the split on ",", 1429-1432; host and port text are
-   stripped, 1437-1439) or a (host, port) tuple (1441-1443).  The result is sorted(set(...)): tuples compare
+(* ---- _normalize_hosts: client.py:1406-1454 ------------------------------------------------------ *)
+(* An item is a string "host" / "host:port" (after the split on ",", 1438-1441; host and port text are
+   stripped, 1446-1448) or a (host, port) tuple (1450-1452).  The result is sorted(set(...)): tuples compare
    by host, then by port.  Generic in the host type: strings (lists of code points) for the function itself,
    integers for the histories of ClientRun. *)
 Inductive hitem (H : Type) := HStr (h : H) (port : option Z) | HTuple (h : H) (port : Z).
@@ -417,8 +417,8 @@ Section Normalize.
   Definition normalize_hosts (items : list (hitem H)) : list (H * Z) := sorted_set (map norm_item items).
 End Normalize.
 
-(* str.strip() for the white space the driver uses *)
-Definition is_ws (c : Z) : bool := (c =? 32) || ((9 <=? c) && (c <=? 13)).
+(* str.strip() on an ASCII string (hosts must be ASCII): 9-13, 28-31 and 32 are white space *)
+Definition is_ws (c : Z) : bool := (c =? 32) || ((9 <=? c) && (c <=? 13)) || ((28 <=? c) && (c <=? 31)).
 Fixpoint lstrip (s : list Z) : list Z :=
   match s with c :: r => if is_ws c then lstrip r else s | [] => [] end.
 Definition str_strip (s : list Z) : list Z := rev (lstrip (rev (lstrip s))).
